@@ -15,6 +15,10 @@ Per case (1–3 metrics of the four supported types, gauges in any of the ten mu
   * T2: the same case goes to the driver (`c12 run …`), which returns both models' raw and normalised collections:
     raw in-memory model == real in-process collection, raw file-backed model == real multiprocess collection,
     outcomes == real outcomes, Lean `normalise` == the harness's own normalisation of the real collections.
+  * F28 characterised (backends_equivalent_with_removals_partial): for a history WITH remove()/clear() the real
+    multiprocess collection must equal the real IN-PROCESS collection of the history with every remove/clear erased
+    (`oracle_erased`; signature prefix `C12:removals-not-as-erased:`); the comparison with the un-erased history stays
+    the known finding `C12:remove-clear-not-propagated`.
   * the hypothesis the Lean theorem takes from C13 (`le` text is a fixpoint: floatToGoString(float(floatToGoString(b)))
     == floatToGoString(b), and float(floatToGoString(b)) == b) is validated on every bound of every generated layout.
 """
@@ -534,6 +538,11 @@ def hyp_ok(case, run):
     strictly increasing (no duplicate / signed-zero pair), distinct label names, no label named pid"""
     if run.removed[0]:
         return False
+    return hyp_ok_decls(case)
+
+
+def hyp_ok_decls(case):
+    """… the hypotheses other than "no removal": those of backends_equivalent_with_removals_partial"""
     for s in case['specs']:
         if len(set(s['labelnames'])) != len(s['labelnames']) or 'pid' in s['labelnames']:
             return False
@@ -544,11 +553,39 @@ def hyp_ok(case, run):
     return True
 
 
+def erased(case):
+    """the history with every remove()/clear() erased; each kept call keeps its clock reading"""
+    keep = [n for n, op in enumerate(case['ops']) if op[0] == 'call']
+    return dict(case, ops=[case['ops'][n] for n in keep], clock=[case['clock'][n] for n in keep])
+
+
+def oracle_erased(case, run):
+    """F28 characterised: the multiprocess collection of a history WITH removals must be the in-process collection of
+    the history with its removals erased (the file-backed store behaves as if removals never happened).
+    -> list of (signature, description)"""
+    if not any(op[0] != 'call' for op in case['ops']) or run.err[0] is not None or run.err[1] is not None:
+        return []
+    ec = erased(case)
+    r2 = run_case(ec)
+    if r2.err[0] is not None:
+        return []
+    r2.raw[1], r2.meta[1], r2.collect_err[1] = run.raw[1], run.meta[1], run.collect_err[1]
+    r2.outs[1] = list(r2.outs[0])
+    out = []
+    for sig, what in oracle(ec, r2):
+        if sig in (SIG_F14, SIG_ZERO):
+            continue                                    # reported on the history itself
+        out.append(('C12:removals-not-as-erased:' + sig[len('C12:'):],
+                    'multiprocess collection of the history vs in-process collection of the history with remove/clear erased: ' + what))
+    return out
+
+
 def shrink(case, sig):
     def still(ops):
         c = dict(case, ops=ops, clock=case['clock'][:len(ops)])
         try:
-            return any(s == sig for s, _ in oracle(c, run_case(c)))
+            r = run_case(c)
+            return any(s == sig for s, _ in oracle(c, r) + oracle_erased(c, r))
         except Exception:
             return False
     ops = case['ops']
@@ -584,13 +621,17 @@ class Batch:
         ctx.case(json.dumps([case['specs'], case['ops']], sort_keys=True, default=str) if nontrivial else None,
                  {'specs': case['specs'], 'ops': case['ops'][:5], 'outcomes': run.outs[0][:5],
                   'series': len(run.raw[0])} if label not in ('alphabet',) else None)
-        for sig, what in oracle(case, run, self.limits):
+        erased_fails = oracle_erased(case, run)
+        if any(op[0] != 'call' for op in case['ops']):
+            ctx.count('erased-history-oracle:checked')
+        for sig, what in oracle(case, run, self.limits) + erased_fails:
             ctx.count('oracle-fail:' + sig)
             self.nfail[sig] = self.nfail.get(sig, 0) + 1
             if self.nfail[sig] > 2:
                 continue
             small = shrink(case, sig)
-            what2 = next((w for s, w in oracle(small, run_case(small)) if s == sig), what)
+            rs = run_case(small)
+            what2 = next((w for s, w in oracle(small, rs) + oracle_erased(small, rs) if s == sig), what)
             ctx.fail(sig, what2, small)
 
     def flush(self):
@@ -630,7 +671,7 @@ def compare_model(case, run, rep):
         if f[0] != 'err' or f[1] != run.err[0]:
             return 'constructor raised %s, model says %r' % (run.err[0], rep[:80])
         return None
-    if f[0] != 'ok' or len(f) != 6:
+    if f[0] != 'ok' or len(f) != 8:
         return 'constructors succeeded, model says %r' % rep[:80]
     outs = [] if f[1] == '.' else f[1].split(';')
     if outs != run.outs[0]:
@@ -674,6 +715,16 @@ def compare_model(case, run, rep):
             b.setdefault((nm, ls), v)
         if set(a) != set(b) or any(not feq(a[k], b[k]) for k in a):
             return 'theorem backends_equivalent_partial fails at run time: model in-memory %r vs model file-backed %r' % (
+                sorted(set(a) - set(b))[:3], sorted(set(b) - set(a))[:3])
+    if hyp_ok_decls(case):
+        a = {}
+        for nm, ls, v in parse_norm(f[6]):
+            a.setdefault((nm, ls), v)
+        b = {}
+        for nm, ls, v in parse_norm(f[7]):
+            b.setdefault((nm, ls), v)
+        if set(a) != set(b) or any(not feq(a[k], b[k]) for k in a):
+            return 'theorem backends_equivalent_with_removals_partial fails at run time: in-memory model of the erased history %r vs file-backed model %r' % (
                 sorted(set(a) - set(b))[:3], sorted(set(b) - set(a))[:3])
     return None
 
